@@ -227,7 +227,25 @@ def run_fidelity(prop: str, seed: int) -> dict:
     return res
 
 
-def run_readme_order(prop: str, seed: int) -> dict:
+KF2_PROBE_PLAN = {
+    # fixed history that exhibits known finding KF-2 (see known_findings.json / DESIGN.md 0.3)
+    "prop": "C09",
+    "seed": 0,
+    "devices": 1,
+    "Tmax": 6,
+    "world": {
+        "problem": {"kind": "forest", "params": {"S": 5, "r1": 4.0, "r2": 2.0, "p": 0.1}},
+        "solver": {"cls": "VI", "kw": {"max_batch_size": 4, "gamma": 0.95, "epsilon": 1e-13, "convergence_test": "span"}},
+        "ckpt": {"f": 2, "m": 2, "async": True},
+    },
+    "lifetimes": [
+        {"route": "construct", "ops": [{"op": "solve_to", "it": 2}, {"op": "wait"}], "writer": {"mode": "eager"}},
+        {"route": "restore", "ops": [{"op": "solve_to", "it": 6}, {"op": "wait"}], "writer": {"mode": "eager"}},
+    ],
+}
+
+
+def run_readme_order(prop: str, seed: int, fixed_plan: dict | None = None) -> dict:
     """C09 in really fresh processes with the README construction order (problem built before
     the solver switches 64-bit mode on): uninterrupted run and interrupted run are both executed
     with real lifetimes and that boot order, and must agree sweep by sweep and in the final state."""
@@ -238,10 +256,15 @@ def run_readme_order(prop: str, seed: int) -> dict:
     root = scratch_root()
     res = {"prop": prop, "seed": seed, "verdict": "pass", "violations": []}
     try:
-        plan, ctl = build_plan(prop, seed, root)
-        if not ctl.ok or not plan["lifetimes"] or Q.is_shuffled(plan["world"]):
-            res["verdict"] = "skipped"
-            return res
+        if fixed_plan is not None:
+            import copy as _copy
+
+            plan = _copy.deepcopy(fixed_plan)
+        else:
+            plan, ctl = build_plan(prop, seed, root)
+            if not ctl.ok or not plan["lifetimes"] or Q.is_shuffled(plan["world"]):
+                res["verdict"] = "skipped"
+                return res
         for lt in plan["lifetimes"]:
             lt.pop("crash", None)  # clean interruptions only: kills are covered by the fidelity phase
         plan["readme_order"] = True
@@ -259,9 +282,23 @@ def run_readme_order(prop: str, seed: int) -> dict:
         res["lifetimes"] = len(plan["lifetimes"]) + 1
         res["dtype"] = c.hist["lifetimes"][0]["boot"].get("values_dtype")
         cs = {it: (v, p) for it, v, p in c.hist["lifetimes"][0]["sweeps"]}
-        for h in b.hist["lifetimes"]:
+        cdt = {it: str(arrs["values"].dtype) for it, arrs, _ in c.sweeps[0]}
+        for li, h in enumerate(b.hist["lifetimes"]):
+            rdt = {it: str(arrs["values"].dtype) for it, arrs, _ in b.sweeps.get(li, [])}
             for it, v, p in h["sweeps"]:
                 if it in cs and cs[it] != (v, p):
+                    if cdt.get(it) != rdt.get(it):
+                        # the two runs do not even compute in the same precision
+                        res["violations"] = [
+                            {
+                                "class": f"{prop}:readme_order_precision_mismatch",
+                                "msg": f"fresh processes, problem built before the solver switches 64-bit mode on: the uninterrupted run computes in {cdt.get(it)} from its first sweep, the run resumed in lifetime {h['i']} in {rdt.get(it)} (first difference after sweep {it})",
+                                "control_dtype": cdt.get(it),
+                                "resumed_dtype": rdt.get(it),
+                            }
+                        ]
+                        res["verdict"] = "violation"
+                        return res
                     res["violations"].append({"class": f"{prop}:readme_order_trajectory_diverged", "msg": f"fresh processes, problem built before 64-bit mode: lifetime {h['i']} differs from the uninterrupted run after sweep {it}"})
                     break
         fin, cfin = b.finals[-1], c.finals[0]
